@@ -47,6 +47,10 @@ pub struct Case {
     pub stranded: bool,
     pub report_all: bool,
     pub packed_container: bool,
+    /// reads handed over as `DnaStringSlice`s into one backing string, each starting this many
+    /// bases after the previous one ended (so slices start at arbitrary offsets inside storage words)
+    #[serde(default)]
+    pub slice_gap: Option<usize>,
     pub summ: Summ,
     pub reads: Vec<Read>,
     /// (memory_size argument, bytes per unit via hook H1); the first entry is the one-pass reference
@@ -332,8 +336,12 @@ fn parse_pairs(s: &str) -> Vec<(u8, u32)> {
 }
 
 fn run_v<K: Kmer, V: Vmer>(c: &Case, rec: &mut Rec) -> Result<(), Violation> {
-    let k = K::k();
     let seqs: Vec<(V, Exts, u32)> = c.reads.iter().map(|r| (V::from_slice(&r.seq), Exts::new(r.exts), r.label)).collect();
+    run_seqs::<K, V>(c, &seqs, rec)
+}
+
+fn run_seqs<K: Kmer, V: Vmer>(c: &Case, seqs: &[(V, Exts, u32)], rec: &mut Rec) -> Result<(), Violation> {
+    let k = K::k();
     let mut reference: Option<Outcome> = None;
     let mut d = Digest::new();
     for r in &c.reads {
@@ -342,7 +350,7 @@ fn run_v<K: Kmer, V: Vmer>(c: &Case, rec: &mut Rec) -> Result<(), Violation> {
     rec.env.u64(d.0);
     let mut multi = false;
     for (i, b) in c.budgets.iter().enumerate() {
-        let o = call::<K, V>(c, &seqs, *b)?;
+        let o = call::<K, V>(c, seqs, *b)?;
         rec.choice("budget_passes", o.passes as u64, o.passes == 1);
         rec.ev("filter_kmers", o.table.len() as u64, o.all_kmers.len() as u64);
         rec.add("absent_kmer_lookups", o.absent_hits as u64);
@@ -402,7 +410,31 @@ fn run_v<K: Kmer, V: Vmer>(c: &Case, rec: &mut Rec) -> Result<(), Violation> {
     Ok(())
 }
 
+fn run_slices<K: Kmer>(c: &Case, gap: usize, rec: &mut Rec) -> Result<(), Violation> {
+    use debruijn::dna_string::DnaStringSlice;
+    // one backing string: gap bases of padding, read, gap bases, read, ...
+    let mut backing = DnaString::new();
+    let mut spans = Vec::new();
+    for (i, r) in c.reads.iter().enumerate() {
+        for j in 0..(gap + i % 3) {
+            backing.push(((i + j) % 4) as u8);
+        }
+        let start = backing.len();
+        for b in &r.seq {
+            backing.push(*b);
+        }
+        spans.push((start, backing.len()));
+    }
+    backing.push(0);
+    let seqs: Vec<(DnaStringSlice, Exts, u32)> = c.reads.iter().zip(spans.iter()).map(|(r, (a, b))| (backing.slice(*a, *b), Exts::new(r.exts), r.label)).collect();
+    rec.count("reach_reads_as_slices");
+    run_seqs::<K, DnaStringSlice>(c, &seqs, rec)
+}
+
 fn run_k<K: Kmer>(c: &Case, rec: &mut Rec) -> Result<(), Violation> {
+    if let Some(gap) = c.slice_gap {
+        return run_slices::<K>(c, gap, rec);
+    }
     if c.packed_container {
         run_v::<K, DnaString>(c, rec)
     } else {
@@ -451,8 +483,20 @@ impl Harness for C05 {
         let k = k_of(&ktype);
         // rare: one k-mer observed more than 65535 times (saturating count)
         let big = rng.chance(1, if tier == Tier::Thorough { 20_000 } else { 6_000 });
+        // rare: more than 65536 reads (per-read indices wider than 16 bits)
+        let many = !big && rng.chance(1, if tier == Tier::Thorough { 20_000 } else { 6_000 });
         let mut reads: Vec<Read> = Vec::new();
-        if big {
+        if many {
+            let n = 65_536 + rng.range(1, 400);
+            for i in 0..n {
+                let len = k + rng.below(3);
+                reads.push(Read {
+                    seq: dna::random_seq(rng, len, &[0, 1, 2, 3]),
+                    exts: 0,
+                    label: i as u32,
+                });
+            }
+        } else if big {
             let b = rng.below(4) as u8;
             let n = 65_536 + k + rng.below(40);
             // the run is followed by another base and a tail: the flank of the LAST observation of
@@ -492,7 +536,7 @@ impl Harness for C05 {
         let n_kmers: usize = reads.iter().map(|r| r.seq.len().saturating_sub(k - 1)).sum();
         let kmer_mem = n_kmers * size_of_pair(&ktype);
         let mut budgets = vec![budget_for(kmer_mem, 1, 4)];
-        let nb = if big { 2 } else { rng.range(1, 4) };
+        let nb = if big || many { 2 } else { rng.range(1, 4) };
         for _ in 0..nb {
             let slices = match rng.below(8) {
                 0 => 2,
@@ -513,6 +557,12 @@ impl Harness for C05 {
         };
         let summ = if big {
             Summ::Count(rng.range(1, 3))
+        } else if many {
+            if rng.chance(1, 2) {
+                Summ::CountSet(1)
+            } else {
+                Summ::Record(1)
+            }
         } else {
             match rng.below(3) {
                 0 => Summ::Count(thr),
@@ -525,6 +575,7 @@ impl Harness for C05 {
             stranded: rng.chance(1, 2),
             report_all: rng.chance(1, 2),
             packed_container: !big && rng.chance(1, 2),
+            slice_gap: if !big && !many && rng.chance(1, 5) { Some(rng.below(40)) } else { None },
             summ,
             reads,
             budgets,
@@ -578,6 +629,11 @@ impl Harness for C05 {
         if c.packed_container {
             let mut x = c.clone();
             x.packed_container = false;
+            out.push(x);
+        }
+        if c.slice_gap.is_some() {
+            let mut x = c.clone();
+            x.slice_gap = None;
             out.push(x);
         }
         // fewer passes: halve the slice count of the last budget
